@@ -2730,7 +2730,7 @@ void register_vec_1()
         Scenario s;
         s.family   = "vec";
         s.name     = "inplace_vector<Thrower,4>";
-        s.props    = {"C03", "C02"};
+        s.props    = {"C01", "C03", "C02"};
         s.maxSteps = 30;
 #if defined(__cpp_exceptions)
         s.ops = ThrowDriver::ops();
